@@ -351,20 +351,19 @@ theorem skipMember_eq_omits (o : Opts) (v : JV) : skipMember o v = omits o v := 
   | obj s => cases s <;> simp [skipMember, omits]
   | _ => simp [skipMember, omits]
 
-theorem normMembers_eq (o : Opts) (nv : JV → JV) : ∀ kvs : Kvs,
-    normMembers o nv kvs = (kept o kvs).map fun kv => (sanitize kv.1, nv kv.2) := by
+theorem normMembers_eq (drop : JV → Bool) (nv : JV → JV) : ∀ kvs : Kvs,
+    normMembers drop nv kvs = (kvs.filter fun kv => !drop kv.2).map fun kv => (sanitize kv.1, nv kv.2) := by
   intro kvs
   induction kvs with
   | nil => rfl
   | cons kv r ih =>
     obtain ⟨k, v⟩ := kv
-    by_cases h : skipMember o v = true
-    · rw [kept_cons_skip o k v r h]
-      simp only [normMembers, ← skipMember_eq_omits, h, ↓reduceIte, ih]
-    · rw [kept_cons_keep o k v r h]
-      simp only [normMembers, ← skipMember_eq_omits, h, Bool.false_eq_true, ↓reduceIte, ih, List.map_cons]
+    by_cases h : drop v = true
+    · simp [normMembers, h, ih]
+    · simp [normMembers, h, ih]
 
-
+theorem kept_eq_filter (o : Opts) (kvs : Kvs) : kept o kvs = kvs.filter fun kv => !omits o kv.2 := by
+  simp only [kept, skipMember_eq_omits]
 
 /-! ### the whole tree -/
 
@@ -407,7 +406,7 @@ theorem parse_text (hs : TableSafe Gen.Root.jMap) (o : Opts) (ord : Kvs → Kvs)
     (L : Layout) (hL : L.WF) :
     ∀ (f : Nat) (v : JV) (d g : Nat) (rest : Bytes), okW v → depth v < f → depth v < g →
       follows rest = true →
-      Spec.pValue g (text o ord L f v d ++ rest) = some (normF o ord f v, rest) := by
+      Spec.pValue g (text o ord L f v d ++ rest) = some (normG (omits o) o.sort ord f v, rest) := by
   intro f
   induction f with
   | zero => intro v d g rest _ h; omega
@@ -415,23 +414,23 @@ theorem parse_text (hs : TableSafe Gen.Root.jMap) (o : Opts) (ord : Kvs → Kvs)
     intro v d g rest hok hf hg hrest
     obtain ⟨g, rfl⟩ : ∃ g', g = g' + 1 := ⟨g - 1, by omega⟩
     cases v with
-    | null => simpa [text, normF] using pValue_null g rest
+    | null => simpa [text, normG] using pValue_null g rest
     | bool b =>
       cases b
-      · simpa [text, normF] using pValue_false g rest
-      · simpa [text, normF] using pValue_true g rest
-    | int i => simpa [text, normF] using pValue_num g (fmtInt i) rest (isNumLit_fmtInt i) hrest
+      · simpa [text, normG] using pValue_false g rest
+      · simpa [text, normG] using pValue_true g rest
+    | int i => simpa [text, normG] using pValue_num g (fmtInt i) rest (isNumLit_fmtInt i) hrest
     | flt t =>
       simp only [okW] at hok
-      simpa [text, normF] using pValue_num g t rest hok hrest
+      simpa [text, normG] using pValue_num g t rest hok hrest
     | big t => simp [okW] at hok
     | num t => simp [okW] at hok
-    | str x => simpa [text, normF] using pValue_str hs g x rest (!o.htmlUnsafe)
+    | str x => simpa [text, normG] using pValue_str hs g x rest (!o.htmlUnsafe)
     | arr xs =>
       simp only [okW] at hok
       simp only [depth] at hf hg
       cases xs with
-      | nil => simpa [text, normF] using pValue_empty_arr g rest
+      | nil => simpa [text, normG] using pValue_empty_arr g rest
       | cons x r =>
         have hokx : okW x := okW_mem_list _ hok x (by simp)
         have hdx : depth x ≤ depthList (x :: r) := depth_mem_list _ x (by simp)
@@ -460,18 +459,18 @@ theorem parse_text (hs : TableSafe Gen.Root.jMap) (o : Opts) (ord : Kvs → Kvs)
             (tElems tv (L.cs d) r ++ L.cl d ++ 93 :: rest))) = b :: (t ++ (tElems tv (L.cs d) r ++ L.cl d ++ 93 :: rest)) := by
           rw [skipWs_ws_append _ _ (hL.cs d), hb, List.cons_append, skipWs_nonws b _ hws]
         have h1' : Spec.pValue g (b :: (t ++ (tElems tv (L.cs d) r ++ L.cl d ++ 93 :: rest))) =
-            some (normF o ord f x, tElems tv (L.cs d) r ++ L.cl d ++ 93 :: rest) := by
+            some (normG (omits o) o.sort ord f x, tElems tv (L.cs d) r ++ L.cl d ++ 93 :: rest) := by
           rw [← List.cons_append, ← hb]; exact h1
         have hopen := pValue_open_arr g _ _ _ b _ hsk hn93 h1'
-        have htail := pElems_tail (Spec.pValue g) tv (normF o ord f) (L.cs d) (L.cl d) rest
-          (hL.cs d) (hL.cl d) r [normF o ord f x]
+        have htail := pElems_tail (Spec.pValue g) tv (normG (omits o) o.sort ord f) (L.cs d) (L.cl d) rest
+          (hL.cs d) (hL.cl d) r [normG (omits o) o.sort ord f x]
           ((tElems tv (L.cs d) r ++ L.cl d ++ 93 :: rest).length + 1)
           (by have := tElems_length tv (L.cs d) r; simp; omega)
           (fun y hy => hth y (okW_mem_list _ hok y (by simp [hy])))
           (fun y hy rest' hr' => ih y (L.next d) g rest' (okW_mem_list _ hok y (by simp [hy]))
             (by have := depth_mem_list (x :: r) y (by simp [hy]); omega)
             (by have := depth_mem_list (x :: r) y (by simp [hy]); omega) hr')
-        simp only [text, normF, List.cons_append, List.append_assoc, List.map_cons, List.nil_append]
+        simp only [text, normG, List.cons_append, List.append_assoc, List.map_cons, List.nil_append]
         simp only [List.append_assoc, List.cons_append, List.nil_append] at hopen htail
         exact hopen.trans (by simpa using htail)
     | obj kvs =>
@@ -487,7 +486,7 @@ theorem parse_text (hs : TableSafe Gen.Root.jMap) (o : Opts) (ord : Kvs → Kvs)
         intro y hy
         obtain ⟨f', rfl⟩ : ∃ f', f = f' + 1 := ⟨f - 1, by omega⟩
         exact text_head o ord L f' y (L.next d) hy
-      simp only [text, normF, normMembers_eq]
+      simp only [text, normG, normMembers_eq, ← kept_eq_filter]
       cases hk : kept o (order o.sort ord kvs) with
       | nil => simpa using pValue_empty_obj g rest
       | cons kv r =>
@@ -514,7 +513,7 @@ theorem parse_text (hs : TableSafe Gen.Root.jMap) (o : Opts) (ord : Kvs → Kvs)
         have h1 := ih x (L.next d) g (tMembers (!o.htmlUnsafe) tv (L.cs d) (58 :: w) r ++ L.cl d ++ 125 :: rest)
           hokx (by simp at hdx; omega) (by simp at hdx; omega) hfol
         have hm := pMember_text hs (Spec.pValue g) k (!o.htmlUnsafe) w (text o ord L f x (L.next d))
-          (tMembers (!o.htmlUnsafe) tv (L.cs d) (58 :: w) r ++ L.cl d ++ 125 :: rest) (normF o ord f x) hw
+          (tMembers (!o.htmlUnsafe) tv (L.cs d) (58 :: w) r ++ L.cl d ++ 125 :: rest) (normG (omits o) o.sort ord f x) hw
           (hth x hokx) h1
         have hsk : Spec.skipWs (L.cs d ++ (jsonString k (!o.htmlUnsafe) ++ (58 :: w) ++ text o ord L f x (L.next d) ++
             (tMembers (!o.htmlUnsafe) tv (L.cs d) (58 :: w) r ++ L.cl d ++ 125 :: rest))) =
@@ -526,11 +525,11 @@ theorem parse_text (hs : TableSafe Gen.Root.jMap) (o : Opts) (ord : Kvs → Kvs)
         have hm' : Spec.pMember (Spec.pValue g) (34 :: ((escLoop Gen.Root.jMap (!o.htmlUnsafe) 0 true k ++ [34]) ++ (58 :: w) ++
             text o ord L f x (L.next d) ++
             (tMembers (!o.htmlUnsafe) tv (L.cs d) (58 :: w) r ++ L.cl d ++ 125 :: rest))) =
-            some ((sanitize k, normF o ord f x), tMembers (!o.htmlUnsafe) tv (L.cs d) (58 :: w) r ++ L.cl d ++ 125 :: rest) := by
+            some ((sanitize k, normG (omits o) o.sort ord f x), tMembers (!o.htmlUnsafe) tv (L.cs d) (58 :: w) r ++ L.cl d ++ 125 :: rest) := by
           simpa only [jsonString, List.cons_append] using hm
         have hopen := pValue_open_obj g _ _ _ 34 _ _ hsk (by decide) hm'
-        have htail := pMembers_tail hs (Spec.pValue g) tv (normF o ord f) (!o.htmlUnsafe) (L.cs d) (L.cl d) w rest
-          (hL.cs d) (hL.cl d) hw r [(sanitize k, normF o ord f x)]
+        have htail := pMembers_tail hs (Spec.pValue g) tv (normG (omits o) o.sort ord f) (!o.htmlUnsafe) (L.cs d) (L.cl d) w rest
+          (hL.cs d) (hL.cl d) hw r [(sanitize k, normG (omits o) o.sort ord f x)]
           ((tMembers (!o.htmlUnsafe) tv (L.cs d) (58 :: w) r ++ L.cl d ++ 125 :: rest).length + 1)
           (by have := tMembers_length (!o.htmlUnsafe) tv (L.cs d) (58 :: w) r; simp; omega)
           (fun kv hkv => hth kv.2 (hokm kv (by simp [hkv])))
